@@ -183,7 +183,15 @@ def eval_encode(s, tag, inject):
     kill = "SIGKILL" in inject
     if not kill:
         stale(p)
-    rc, out, err, _ = run_traced(["encode", p, str(s.args[0])], p, inject)
+    else:
+        # C14: the finished twin of this very encode is already at the path. The driver opens with
+        # Options::overwrite, which must empty it: if old frames survived behind the new ones they would
+        # line up with them exactly and decode as audio this run never wrote.
+        with open(p, "wb") as f:
+            f.write(s.ref["bytes"])
+    rc, out, err, lines = run_traced(["encode", p, str(s.args[0])], p, inject)
+    # bytes this process really handed to the kernel before it died (the encoder only appends before finalize)
+    written = sum(int(m.group(1)) for m in (re.search(r"\bwrite\(.*\)\s+=\s+(\d+)\s*$", l) for l in lines) if m)
     res = result_line(out)
     try:
         d = died(rc, err, kill)
@@ -204,7 +212,7 @@ def eval_encode(s, tag, inject):
             if fi.get("ok") and rf.get("ok") and fi.get("audio_start") == rf["audio_start"]:
                 k, n = 0, 0
                 for end, smp in zip(rf["frame_ends"], rf["frame_samples"]):
-                    if end <= len(left) and left[rf["audio_start"]:end] == s.ref["bytes"][rf["audio_start"]:end]:
+                    if end <= len(left) and end <= written and left[rf["audio_start"]:end] == s.ref["bytes"][rf["audio_start"]:end]:
                         k, n = k + 1, n + smp
                     else:
                         break
